@@ -16,24 +16,23 @@ def Fresh (s : PState) : Prop := s.current = none → s.lx.finished = false
 /-- the cross-run property with a precondition on the whole start state -/
 def XS {α : Type} (P : PState → Prop) (m : PI α) : Prop :=
   ∀ (s : PState) (r R : Nat) (ar aR : α) (sr sR : PState), r ≤ R → s.recCur ≤ r → s.recHigh ≤ r → GI s → P s →
-    m.run (setL r s) = .ok ar sr → m.run (setL R s) = .ok aR sR → sR.recHigh ≤ R →
+    m.run (setL r s) = .ok ar sr → m.run (setL R s) = .ok aR sR →
     Sync s r R ar aR sr sR ∨ Div r sr sR
 
 theorem xs_bind {α β : Type} {P : PState → Prop} {c' : α → Option Tok → Prop} (m : PI α) (f : α → PI β)
     (hP : ∀ s L, P s → P (setL L s))
     (xm : XS P m) (bm : BG m) (pm : ∀ s a s', GI s → P s → m.run s = .ok a s' → c' a s'.current)
     (xf : ∀ a, XC (c' a) (f a)) (bf : ∀ a, BG (f a)) : XS P (m >>= f) := by
-  intro s r R br bR sr sR hrR hc hh g hcs hr hR hbR
+  intro s r R br bR sr sR hrR hc hh g hcs hr hR
   obtain ⟨a1, s1r, h1r, h2r⟩ := bind_dec m f _ sr br hr
   obtain ⟨a1R, s1R, h1R, h2R⟩ := bind_dec m f _ sR bR hR
   have b1r := bm _ a1 s1r (by simpa [setL] using hc) h1r
   have b1R := bm _ a1R s1R (by simp only [setL]; omega) h1R
   have b2R := bf a1R s1R bR sR (by rw [b1R.recCur, b1R.recLimit]; simp only [setL]; omega) h2R
-  have hb1 : s1R.recHigh ≤ R := Nat.le_trans b2R.lo hbR
-  rcases xm s r R a1 a1R s1r s1R hrR hc hh g hcs h1r h1R hb1 with ⟨t, e1, e2, ea, th, tc, tg⟩ | ⟨d1, d2, d3⟩
+  rcases xm s r R a1 a1R s1r s1R hrR hc hh g hcs h1r h1R with ⟨t, e1, e2, ea, th, tc, tg⟩ | ⟨d1, d2, d3⟩
   · subst e1 e2 ea
     have hct : c' a1 t.current := pm (setL r s) a1 (setL r t) (gi_setL g r) (hP s r hcs) h1r
-    rcases xf a1 t r R br bR sr sR hrR (by rw [tc]; exact hc) th tg hct h2r h2R hbR with ⟨t2, e1, e2, ea, th2, tc2, tg2⟩ | d
+    rcases xf a1 t r R br bR sr sR hrR (by rw [tc]; exact hc) th tg hct h2r h2R with ⟨t2, e1, e2, ea, th2, tc2, tg2⟩ | d
     · exact Or.inl ⟨t2, e1, e2, ea, th2, tc2.trans tc, tg2⟩
     · exact Or.inr d
   · have b2r := bf a1 s1r br sr (by rw [b1r.recCur, b1r.recLimit]; simpa [setL] using hc) h2r
@@ -44,7 +43,7 @@ theorem xs_bind {α β : Type} {P : PState → Prop} {c' : α → Option Tok →
     omega
 
 theorem xs_of_plain {α : Type} {P : PState → Prop} {m : PI α} (hm : Plain m) : XS P m :=
-  fun s r R ar aR sr sR h1 h2 h3 g _ hr hR hb => xc_of_plain (c := anyTok) hm s r R ar aR sr sR h1 h2 h3 g trivial hr hR hb
+  fun s r R ar aR sr sR h1 h2 h3 g _ hr hR => xc_of_plain (c := anyTok) hm s r R ar aR sr sR h1 h2 h3 g trivial hr hR
 
 /-- `peek` from a fresh state finds a token -/
 theorem peek_fresh (s : PState) (k : Option Kind) (s' : PState) (g : GI s) (hf : Fresh s) (h : peek.run s = .ok k s') :
